@@ -31,6 +31,7 @@ RULE_TEXT = ("cases: chosen from a pool of 3x as many seeded generated elections
 
 
 POOL = {'quick': 3, 'thorough': 3}
+PRISTINE_CASES = {'quick': 44, 'thorough': 330}
 
 
 def _probe(task):
@@ -48,10 +49,26 @@ def _work(task):
 
 def run(R, tier, seed):
     t0 = time.time()
+    n = int(os.environ.get('VERIF_C19_CASES', NCASES[tier]))
+    # ---- pristine arm, before this process has counted anything (not even the warm-up): interrupted executions that
+    # are the FIRST count of their process, over the header-fill window of the first cases
+    npr = min(n, PRISTINE_CASES[tier])
+    prefs = core.fork_map(c19.pristine_ref, [(R, seed, i, tier) for i in range(npr)], timeout=CASE_TIMEOUT[tier],
+                          what='C19 pristine reference')
+    ptasks = []
+    for i, pref in enumerate(prefs):
+        if pref is None:
+            continue
+        window = min(pref['T'], (pref['fill_done'] or 200) + 30)
+        ks = sorted(set(range(1, window + 1, 3)) | {max(1, pref['T'] // 2), max(1, pref['T'] - 3)})
+        for k in ks:
+            ptasks.append((R, seed, i, tier, pref, k, c19.ORDERS[(k + i) % len(c19.ORDERS)]))
+    pres = core.fork_map(c19.pristine_exec, ptasks, timeout=CASE_TIMEOUT[tier], what='C19 pristine execution')
+    pristine_viols = [v for r in pres for v in r['viol']]
+    pristine_execs = sum(1 for r in pres if r['status'] in ('interrupted', 'swallowed'))
     warm = c19.warmup(R)
     if warm <= 0:
         raise core.HarnessError("opcode warm-up saw zero events")
-    n = int(os.environ.get('VERIF_C19_CASES', NCASES[tier]))
     # candidate pool: POOL*n generated cases are looked at cheaply (reference run only); the n cases to explore are
     # those that reach package lines the others do not, plus the first ones in index order
     pool = POOL[tier] * n
@@ -124,6 +141,9 @@ def run(R, tier, seed):
                 break
 
     # violations -> groups by signature (one replay per signature, the earliest case, the smallest k)
+    viols.extend(pristine_viols)
+    execs += pristine_execs
+    faults['line/raise/api-first-count-of-process'] = pristine_execs
     cands = {}
     for v in viols:
         cands.setdefault(json.dumps(c19.signature(v), sort_keys=True), []).append(v)
@@ -220,6 +240,12 @@ def run(R, tier, seed):
         tree=R.tree, workers=core.nproc(),
     )
     if explored == 0 or execs == 0:
+        if code == core.EXIT_VIOLATION:
+            # a tree on which the pristine arm found a reproducible violation but every case was dropped (e.g. because
+            # its references are unstable) still ends with the verdict; there is no coverage to write evidence about
+            print("C19 %s: every case was dropped (%s); the verdict above rests on the pristine arm" % (tier, unexplored))
+            sys.stdout.flush()
+            return code
         raise core.HarnessError("zero work done: %s" % unexplored)
     ev = dict(property_id='C19', tier=tier, seed=seed, level='fault_enumeration', coverage=cov,
               assumptions=[
